@@ -17,6 +17,7 @@ for pid in sorted(os.listdir(src)):
         sd = f'{src}/{pid}/{v}'
         if not os.path.exists(sd + '/patch.diff'): continue
         out = f'{dst}/{pid}/{v}'
+        if f'{pid}/{v}' not in det and os.path.exists(out + '/meta.json'): continue  # already filed, not re-tested now
         os.makedirs(out, exist_ok=True)
         patch = 'patch.ported.diff' if os.path.exists(sd + '/patch.ported.diff') else 'patch.diff'
         shutil.copy(f'{sd}/{patch}', out + '/patch.diff')
